@@ -213,14 +213,22 @@ def run_unit(unit_dir, tier, relock=False, known_ids=()):
         # statement each function had when its proof was written.  Loop invariants are attached by loop ordinal and hints by statement;
         # if a change adds, removes or converts a loop, or moves an anchored statement into / out of a branch, a failed obligation in
         # that function may be a missing / misplaced proof aid and not the code => undecided, never an alarm
-        shape = {fn['path']: {'loops': fn.get('loop_kinds', []), 'anchor_depths': fn.get('anchor_depths', [])} for fn in asm['fns'] if not fn['stub']}
+        # `ctrl` (the control skeleton: if / match / return / break / continue / ? / loops in pre-order) is locked too, but it only decides how a
+        # failed PROOF HINT (an assertion or lemma call written in the template) is read: hints are written for one control structure of
+        # the function; if that structure changed, a hint that no longer holds says the proof has to be rewritten, not that the code is wrong
+        shape = {fn['path']: {'loops': fn.get('loop_kinds', []), 'anchor_depths': fn.get('anchor_depths', []), 'ctrl': fn.get('ctrl', [])} for fn in asm['fns'] if not fn['stub']}
         slock = os.path.join(unit_dir, 'SHAPE.lock')
         if relock:
             json.dump(shape, open(slock, 'w'), indent=0, sort_keys=True)
         locked_shape = json.load(open(slock)) if os.path.exists(slock) else {}
         for fn in asm['fns']:
-            if not fn['stub'] and fn['path'] in locked_shape and locked_shape[fn['path']] != shape[fn['path']]:
+            if fn['stub'] or fn['path'] not in locked_shape:
+                continue
+            lk, cur = locked_shape[fn['path']], shape[fn['path']]
+            if lk.get('loops') != cur['loops'] or lk.get('anchor_depths') != cur['anchor_depths']:
                 fn['shape_changed'] = True
+            if 'ctrl' in lk and lk['ctrl'] != cur['ctrl']:
+                fn['ctrl_changed'] = True
         if asm['info']['hints_dropped']:
             res['hints_dropped'] = asm['info']['hints_dropped']
         extra = []
@@ -398,6 +406,10 @@ def analyse(res, asm, r):
             oid = '%s::template@%s::%s' % (unit, org[1] if org[0] == 'tpl' else '?', kind)
         rec = {'obligation': oid, 'kind': kind, 'fn': fn['path'] if fn else None, 'message': detail,
                'line': pl, 'text': text.strip(), 'rendered': d.get('rendered', '')[:3000]}
+        is_hint = fn is not None and org[0] == 'tpl' and kind in ('assertion', 'precondition') and not re.search(r'::C\d\d\.', oid)
+        if is_hint and fn.get('ctrl_changed'):
+            res['undecided'].append('proof hint %s failed in %s, whose control structure (if / match / return / loops) differs from the one the hint was written for (SHAPE.lock): the proof has to be redone, not reported as a violation (%s)' % (oid, fn['path'], detail))
+            continue
         if fn and (fn.get('inlined') or fn.get('anchors_lost') or fn.get('shape_changed')):
             # the proof of this function was written for another shape of the code (a helper was inlined by R23 / a hint lost its
             # anchor): a failed obligation here may be the missing proof aid and not the code => undecided, never an alarm
